@@ -27,6 +27,10 @@ module Z :
 
   val ltb : coq_Z -> coq_Z -> bool
 
+  val geb : coq_Z -> coq_Z -> bool
+
+  val gtb : coq_Z -> coq_Z -> bool
+
   val eqb : coq_Z -> coq_Z -> bool
 
   val max : coq_Z -> coq_Z -> coq_Z
